@@ -132,6 +132,14 @@ def enumerate_cases(tier: str):
                 yield {"pair": [old, new], "metric": bool(ack), "registry": ENUM_REGISTRY,
                        "ops": [op for line in lines for op in (["rx", line],)] + [["send", [2, 0, 1, 0, 0, "9"], None], ["rx", "1;0;2;0;0;\n"], ["rx", "1;0;1;0;0;5\n"]]}
     yield from _type_sweep()
+    # several commands parked for one sleeping node, some re-issued (first, middle, last), then the wake: the same lines in the same order
+    for old, new in PAIRS:
+        wakes = [t for t in (22, 32) if t <= INTERNAL_MAX[old] and not (t == 22 and new == "2.2")]
+        for wake_t in wakes:
+            for again in ([0], [1], [2], [0, 2], [2, 0], [1, 1]):
+                ops = [["rx", f"2;255;3;0;{wake_t};5\n"]] + [["send", [2, 0, 1, 0, t, f"a{t}"], None] for t in (0, 2, 3)]
+                ops += [["send", [2, 0, 1, 0, (0, 2, 3)[i], f"b{i}"], None] for i in again] + [["rx", f"2;255;3;0;{wake_t};6\n"], ["rx", f"2;255;3;0;{wake_t};7\n"]]
+                yield {"pair": [old, new], "metric": True, "registry": ENUM_REGISTRY, "ops": ops}
     # what an application sends to a node that is asleep / awake / unknown, every command kind, then the node wakes
     for old, new in PAIRS:
         wakes = [t for t in (22, 32) if t <= INTERNAL_MAX[old] and not (t == 22 and new == "2.2")]
@@ -146,7 +154,7 @@ def enumerate_cases(tier: str):
     for old, new in PAIRS:
         excluded = {2} | ({22} if new == "2.2" else set())
         for mtype in [t for t in (0, 22, 32, 11, 12, 18) if t <= INTERNAL_MAX[old] and t not in excluded]:
-            for seq in (("100", "7"), ("7", "100"), ("5", "5"), ("100", "7", "8", "6"), ("0", "100", "0")):
+            for seq in (("100", "7"), ("7", "100"), ("5", "5"), ("100", "7", "8", "6"), ("0", "100", "0"), ("Relay Actuator", ""), ("", "x"), ("a", "b", ""), ("1.0", "", "1.0")):
                 ops = []
                 for idx, text in enumerate(seq):
                     ops += [["rx", f"2;255;3;0;{mtype};{text}\n"], ["send", [2, 0, 1, 0, 0, f"v{idx}"], None], ["rx", f"1;255;3;1;{mtype};{text}\n"]]
@@ -178,12 +186,13 @@ def strategy(tier: str):
     )
 
 
-def _norm_writes(lines: list[str]) -> Counter:
+def _norm_writes(lines: list[str]) -> list[str]:
+    """The writes of one step IN ORDER (the clock value of a time reply blanked)."""
     out = []
     for line in lines:
         match = drive.TIMEREPLY.match(line)
         out.append(f"{match.group(1)};{match.group(2)};3;0;1;<time>\n" if match else line)
-    return Counter(out)
+    return out
 
 
 def _describe(status: str, value) -> tuple:
@@ -271,7 +280,7 @@ def _run_case(case: dict) -> Outcome:
             if d_old != d_new:
                 return fail(f"outcome-differs:{kind}:{old}->{new}", f"{where}: {old} gives {d_old} ({v_old!r}), {new} gives {d_new} ({v_new!r})")
             if w_old != w_new:
-                return fail(f"writes-differ:{kind}:{old}->{new}", f"{where}: {old} writes {sorted(w_old.elements())}, {new} writes {sorted(w_new.elements())}")
+                return fail(f"writes-differ:{kind}:{old}->{new}", f"{where}: {old} writes {w_old}, {new} writes {w_new}" + (" (same lines, different order)" if sorted(w_old) == sorted(w_new) else ""))
             if len(t_old) == len(t_new) and any(abs(a - b) > 30 for a, b in zip(t_old, t_new)):
                 # (both gateways answered within the same step: the real clock moved by milliseconds, not by a zone offset)
                 return fail(f"time-reply-differs:{old}->{new}", f"{where} (TZ={os.environ.get('TZ')!r}): {old} reports time {t_old}, {new} reports {t_new}")
